@@ -234,8 +234,8 @@ type mutantResult struct {
 	Name       string   `json:"name"`
 	Applicable bool     `json:"applicable"`
 	Benign     bool     `json:"benign"`
-	Fired      bool     `json:"fired"`        // expected rule reported a violation (or, benign: nothing new fired)
-	Violations []string `json:"violations"`   // rule|construct of every violation seen
+	Fired      bool     `json:"fired"`      // expected rule reported a violation (or, benign: nothing new fired)
+	Violations []string `json:"violations"` // rule|construct of every violation seen
 	Error      string   `json:"error,omitempty"`
 }
 
